@@ -334,7 +334,12 @@ def parse_evaluation_expression(tokens: TokenTree) -> EvaluationNode:  # noqa: C
 
     if all_tokens_match(tokens, (TokenType.NUMBER,)):
         assert isinstance(tokens[0], Token)
-        return AnyValue(int(tokens[0].string))
+        try:
+            return AnyValue(int(tokens[0].string))
+        except ValueError:
+            raise XPathParsingError(
+                position=tokens[0].position, message="Number literal is too long."
+            )
 
     if all_tokens_match(tokens, (TokenType.STRING,)):
         assert isinstance(tokens[0], Token)
